@@ -825,4 +825,11 @@ theorem truncRat_int (t : Int) : truncRat (t : Rat) = t := by
   · exact Rat.floor_intCast t
 
 
+theorem split_nanos (n : Int) :
+    ((n / 1000000000 : Int) : Rat) + ((n % 1000000000 : Int) : Rat) / 1000000000 = (n : Rat) / 1000000000 := by
+  have h : 1000000000 * (n / 1000000000) + n % 1000000000 = n := by omega
+  have hc : ((1000000000 * (n / 1000000000) + n % 1000000000 : Int) : Rat) = (n : Rat) := by rw [h]
+  simp only [Rat.intCast_add, Rat.intCast_mul] at hc
+  grind
+
 end Gojq.Native
